@@ -9,6 +9,7 @@
 -/
 import Theorems.Lemmas.Session
 import Theorems.Lemmas.SessionSplit
+import Theorems.TxnRoute
 
 namespace Amqp.Session
 open Amqp Amqp.Gen.Session
